@@ -76,7 +76,22 @@ func (l *c17Loader) Exists(name string) bool { _, ok := l.m[name]; return ok }
 
 func c17Engine(srcs map[string]string, inj *c17Injector, debug bool) *twig.Engine {
 	e := twig.New()
-	e.RegisterLoader(&c17Loader{m: srcs, inj: inj})
+	// the loader that owns the templates stands alone, before, or after loaders that simply do not have them (chosen by
+	// the sources, so that every pass of one case builds the same engine)
+	switch core.Hash64(canonSrcs(srcs)) % 4 {
+	case 0:
+		e.RegisterLoader(&c17Loader{m: srcs, inj: inj})
+	case 1:
+		e.RegisterLoader(&c17Loader{m: srcs, inj: inj})
+		e.RegisterLoader(twig.NewArrayLoader(map[string]string{"unrelated_template": "u"}))
+	case 2:
+		e.RegisterLoader(twig.NewArrayLoader(map[string]string{"unrelated_template": "u"}))
+		e.RegisterLoader(&c17Loader{m: srcs, inj: inj})
+	default:
+		e.RegisterLoader(twig.NewArrayLoader(map[string]string{"unrelated_template": "u"}))
+		e.RegisterLoader(&c17Loader{m: srcs, inj: inj})
+		e.RegisterLoader(twig.NewChainLoader([]twig.Loader{twig.NewArrayLoader(map[string]string{"unrelated_template2": "u"})}))
+	}
 	for _, n := range []string{"sf1", "sf2", "spaceless"} {
 		name := n
 		e.AddFilter(name, func(v interface{}, args ...interface{}) (interface{}, error) {
